@@ -74,10 +74,16 @@ CasesOf(data, i) ==
   \* long proofs against the root they derive themselves: only the length limit can reject
   \cup {Case(data, i, i, d, data, "derive", ExtendTo(P, len), l, "len") : len \in {31, 32, 33, 34}, l \in BOOLEAN}
   \cup {Case(data, i, i, d, data, "derive", ExtendTo(P, h + 1), l, "len") : l \in BOOLEAN}
+  \* a GENUINE proof of maximal length (root derived from its 32 elements) with one more element appended:
+  \* the extra element must invalidate it (it must not be ignored)
+  \cup {Case(data, i, i, d, data, "prefix32", Append(ExtendTo(P, 32), e), l, "long32") :
+          e \in {EmptyElem(32), JunkElem(99)}, l \in BOOLEAN}
 
 ValidCases == UNION {UNION {CasesOf(data, i) : i \in 0..(Len(data) - 1)} : data \in Trees}
 
-RootTerm(x) == IF x.rootMode = "tree" THEN Root(x.rootOf) ELSE DeriveFromE(HLeaf(x.leaf), x.j, x.proof, 1)
+RootTerm(x) == IF x.rootMode = "tree" THEN Root(x.rootOf)
+               ELSE IF x.rootMode = "prefix32" THEN DeriveFromE(HLeaf(x.leaf), x.j, SubSeq(x.proof, 1, 32), 1)
+               ELSE DeriveFromE(HLeaf(x.leaf), x.j, x.proof, 1)
 
 \* the intended verifier on a case (proof elements may be EmptyElem)
 Width(x) == Len(x.proof) >= 31 \/ x.j < Pow2(Len(x.proof))
